@@ -26,9 +26,11 @@ class Circuit(tk.Circuit):
     def upgrade(tk_circuit):
         """ Takes a :class:`pytket.Circuit`, returns a :class:`Circuit`. """
         result = Circuit(tk_circuit.n_qubits, len(tk_circuit.bits))
+        qubits, bits = tk_circuit.qubits, tk_circuit.bits
         for gate in tk_circuit:
-            name, inputs = gate.op.type.name, gate.op.params + [
-                x.index[0] for x in gate.qubits + gate.bits]
+            name, inputs = gate.op.type.name, gate.op.params\
+                + [qubits.index(x) for x in gate.qubits]\
+                + [bits.index(x) for x in gate.bits]
             result.__getattribute__(name)(*inputs)
         return result
 
